@@ -31,6 +31,7 @@ CONSTANTS MaxPg,      \* model pages 1..MaxPg
           AllowCrash, \* the LiteFS process may die (volatile state lost) and restart on the same data directory
           FixJournalNoPS, \* TRUE = restart with a journal but unknown page size just discards the journal (as repaired)
           FixModeOnOpen,  \* TRUE = restart re-derives the journal mode from the recovered header (as repaired)
+          AllowDropDB,\* the database may be deleted (RootNode.Remove -> DB.Drop) and created again
           AllowRetain,\* retention sweeps (Store.EnforceRetention with a zero-length retention) between operations
           Emit        \* "none" | "idle" (print the path of every distinct idle state) | "end"
 
@@ -529,6 +530,23 @@ Crash ==
         /\ UNCHANGED <<okDelta, okChain, okImage>>
         /\ H("Crash", [mid |-> mid, S |-> S, at |-> pc])
 
+\* unlink of the database file on the primary: DB.Drop writes a transaction with commit size zero and the
+\* empty checksum, removes the four files and resets the per-database state - but NOT the page size and
+\* NOT the per-page checksum table (as coded); the same DB object is reused when the name is created again
+DropDB ==
+  /\ AllowDropDB /\ pc = "idle" /\ ops < MaxOps /\ Live /\ dbf # <<>> /\ pageN > 0
+  /\ LET e == [min |-> pos.t + 1, max |-> pos.t + 1, pre |-> pos.c, post |-> EmptyChk, commit |-> 0,
+                pages |-> <<>>, wsalt |-> 0, woff |-> 0, wn |-> 0]
+     IN /\ ltxLast' = e /\ ltxN' = ltxN + 1
+        /\ okChain' = (okChain /\ e.pre = pos.c)
+        /\ okDelta' = okDelta /\ okImage' = okImage /\ UNCHANGED <<okRecover, crashed>>
+  /\ dbf' = <<>> /\ jr' = NoJr /\ wal' = NoWal
+  /\ mode' = "rb" /\ pageN' = 0 /\ woff' = 0 /\ foff' = <<>> /\ wchk' = <<>>
+  /\ pos' = [t |-> pos.t + 1, c |-> EmptyChk]
+  /\ refImg' = <<>> /\ mx' = 0 /\ ckpted' = FALSE /\ ops' = ops + 1
+  /\ UNCHANGED <<psKnown, dirty, pchk, blk, wsalt, fault, pc, plan, todo, salts>>
+  /\ H("DropDB", [x |-> 0])
+
 \* retention sweep with a retention period that has already passed for every file: all but the
 \* newest file are removed (db.go EnforceRetention; no backup client configured)
 Retain ==
@@ -537,7 +555,7 @@ Retain ==
   /\ UNCHANGED <<dbf, jr, wal, ltxLast, lvars, pc, plan, todo, refImg, salts, mx, ckpted, mvars>>
   /\ H("Retain", [x |-> 0])
 
-Next == \/ Crash \/ Retain \/ BeginJ \/ JCreate \/ JSync \/ JPage \/ JRbTrunc \/ JRbPage \/ JFinal \/ JTrunc
+Next == \/ Crash \/ Retain \/ DropDB \/ BeginJ \/ JCreate \/ JSync \/ JPage \/ JRbTrunc \/ JRbPage \/ JFinal \/ JTrunc
         \/ BeginW \/ WHdr \/ WFrame \/ WEnd \/ Ckpt \/ LCkpt
 Spec == Init /\ [][Next]_vars
 
